@@ -173,9 +173,18 @@ def run_job(u, job, cfile, outdir, tier='quick', extra_defs=(), tag=''):
             res['error'] = 'goto-instrument failed: ' + (r.stderr + r.stdout)[-3000:]
             return res
     else:
-        gb1 = gb0
         job = dict(job)
         job['flags'] = job.get('flags', []) + ['--drop-unused-functions']
+        if job.get('loop_contracts'):
+            # loop contracts without dfcc (harness-mode units)
+            cmd = ['goto-instrument', '--apply-loop-contracts'] + job.get('instrument_flags', []) + [gb0, gb1]
+            res['cmds'].append(' '.join(cmd))
+            r = subprocess.run(cmd, capture_output=True, text=True)
+            if r.returncode != 0:
+                res['error'] = 'goto-instrument failed: ' + (r.stderr + r.stdout)[-3000:]
+                return res
+        else:
+            gb1 = gb0
     backend = job.get('backend', 'sat')
     flags = list(CHECK_FLAGS)
     for fl in job.get('drop_flags', []):
